@@ -172,28 +172,22 @@ func (vt *Model) ich(ps int) {
 	}
 	col := vt.cursor.col
 	row := vt.cursor.row
+	if col > vt.margin.right {
+		return
+	}
+	if column(ps) > vt.margin.right-col+1 {
+		// no more than the cells from the cursor to the right margin
+		ps = int(vt.margin.right-col) + 1
+	}
 	line := vt.activeScreen[row]
 	vt.splitWide(row, col)
-	for i := vt.margin.right; i > col; i -= 1 {
-		if (i - column(ps)) < 0 {
-			continue
-		}
+	for i := vt.margin.right; i >= col+column(ps); i -= 1 {
 		line[i] = line[i-column(ps)]
 	}
-	defer vt.trimWide(row)
-	for i := 0; i < ps; i += 1 {
-		if int(col)+i >= (vt.width() - 1) {
-			break
-		}
-		line[col+column(i)] = cell{
-			Cell: vaxis.Cell{
-				Character: vaxis.Character{
-					Grapheme: " ",
-					Width:    1,
-				},
-			},
-		}
+	for i := column(0); i < column(ps); i += 1 {
+		line[col+i].erase(vt.cursor.Style.Background)
 	}
+	vt.trimWide(row)
 }
 
 // Cursur Up (CUU) CSI Ps A
